@@ -71,6 +71,8 @@ pub struct ShardResult {
     pub inconclusive: Option<String>,
     pub notes: Vec<String>,
     pub nontrivial_count: u64,
+    /// non-trivial cases that are distinct by construction (enumerations): counted, not hashed
+    pub distinct_by_construction: u64,
 }
 
 pub struct ShardCtx {
@@ -206,6 +208,18 @@ impl ShardCtx {
             if r.samples.len() < self.max_samples {
                 r.samples.push(sample());
             }
+        }
+    }
+
+    /// record a non-trivial case of an enumeration (distinct by construction, no fingerprint kept)
+    pub fn nontrivial_enum(&self, sample: impl FnOnce() -> Value) {
+        if !self.active() {
+            return;
+        }
+        let mut r = self.res.borrow_mut();
+        r.distinct_by_construction += 1;
+        if r.samples.len() < self.max_samples && r.distinct_by_construction % 977 == 1 {
+            r.samples.push(sample());
         }
     }
 
